@@ -32,12 +32,10 @@ func (t *verifPingTransport) Send(p ...*parser.Packet) {
 //
 //verif:unwind 12
 //verif:rand concrete
-//verif:preempt 1
+//verif:preempt.quick 1
+//verif:preempt.thorough 2
 func verifH_C14_server() {
-	R := 2
-	if verifThorough() {
-		R = 3
-	}
+	R := 2 // thorough keeps R and doubles the preemption bound: with R = 3 the solver leaves the feasibility of ~30 timing paths undecided
 	pi := time.Duration(verifAnyInt64())
 	pt := time.Duration(verifAnyInt64())
 	verifAssume(pi >= 100*time.Millisecond && pi <= 300*time.Millisecond)
